@@ -187,4 +187,167 @@ Proof.
     + inversion Hsd; subst L'. apply put_lstep; assumption.
 Qed.
 
+(* a whole list of responses of other followers *)
+Lemma leader_steps_others : forall ms b L pr L',
+  Forall other_ok ms -> LCore L -> get_pr L f = Some pr -> PrInv b pr -> steps L ms = Ok L' ->
+  exists pr', lstep b L pr L' pr'.
+Proof.
+  induction ms as [|m t IH]; intros b L pr L' Ho HC Hg HP H; cbn [steps] in H.
+  - assert (L' = L) by congruence. subst L'. exists pr. apply lstep_refl'; assumption.
+  - inv_bind H. destruct x as [L1 c1]. cbn [fst] in H.
+    pose proof (Forall_inv Ho) as Hm. pose proof (Forall_inv_tail Ho) as Ht.
+    destruct (leader_step_other b L pr m L1 c1 HC Hg HP Hm Hx) as (p1 & S1).
+    eapply (lstep_trans_ex b L pr L1 p1); [exact HC|exact S1|].
+    intros HC1 Hg1 HP1. eapply IH; eassumption.
+Qed.
+
+(* ================================================================== *)
+(* 7.2 one round of the star, seen from f                              *)
+(* ================================================================== *)
+
+(* the leader handles, in this order: responses [pre] of other followers, the responses
+   of F, responses [post] of other followers *)
+Definition view_round (L F : raft) (pre post : list msg) : Res (raft * raft) :=
+  F1 <- steps F (to_peer (r_id F) (r_msgs L)) ;;
+  L1 <- steps (L <| r_msgs := [] |>) (pre ++ to_peer (r_id L) (r_msgs F1) ++ post) ;;
+  L2 <- tick L1 ;;
+  F2 <- tick (F1 <| r_msgs := [] |>) ;;
+  Ok (fst L2, fst F2).
+
+Local Notation PairInv := (PairInv LL T l f lo rw l0).
+
+Lemma lstep_key b r pr r' pr' : lstep b r pr r' pr' -> pkey pr' = pkey pr.
+Proof. intros (_ & _ & _ & _ & K). exact K. Qed.
+
+Lemma view_round_inv Hb a L F pre post L' F' pr :
+  PairInv Hb a L F -> get_pr L f = Some pr ->
+  Forall other_ok pre -> Forall other_ok post ->
+  view_round L F pre post = Ok (L', F') ->
+  exists a' pr', a <= a' /\ PairInv Hb a' L' F' /\ get_pr L' f = Some pr' /\
+    matched pr <= matched pr' /\ (mu pr' < mu pr \/ pkey pr' = pkey pr) /\
+    ((exists x, In x (to_peer f (r_msgs L)) /\ obl pr x) -> mu pr' < mu pr) /\
+    ((exists x, In x (to_peer f (r_msgs L)) /\ m_type x = MsgHeartbeat) ->
+       matched pr < ll_last LL ->
+       mu pr' < mu pr \/ exists x, In x (to_peer f (r_msgs L')) /\ obl pr' x) /\
+    (Hb <= r_heartbeat_elapsed L + 1 ->
+       exists x, In x (to_peer f (r_msgs L')) /\ m_type x = MsgHeartbeat) /\
+    (r_heartbeat_elapsed L + 1 < Hb -> r_heartbeat_elapsed L' = r_heartbeat_elapsed L + 1).
+Proof.
+  intros [HC (pr0 & Hg0 & HP) HF HFq Hq HH Htm] Hg Hpre Hpost H.
+  rewrite Hg in Hg0. inversion Hg0; subst pr0; clear Hg0.
+  unfold view_round in H. rewrite (fi_id _ _ _ _ _ _ _ HF), (lc_id _ _ _ _ HC) in H.
+  set (Q := to_peer f (r_msgs L)) in *.
+  inv_bind H. rename x into F1. inv_bind H. rename x into L1. inv_bind H. destruct x as [L2 hrl].
+  inv_bind H. destruct x as [F2 hrf]. cbn [fst] in H. inversion H; subst L' F'; clear H.
+  (* the follower *)
+  destruct (follower_steps LL T l f lo rw HLL Hlo HT Hlf Q a F F1 HF Hq Hx)
+    as (a1 & resps & La & HF1 & Fr1 & M1 & Ch & E1 & Eq1 & An & Hbr).
+  rewrite HFq in M1. cbn [app] in M1.
+  destruct (follower_frame_fields _ _ Fr1) as (Fp & Fra & Fid).
+  pose proof (ag_lastL _ _ _ _ (fi_agree _ _ _ _ _ _ _ HF1)) as Ha1.
+  (* the leader *)
+  rewrite M1, (to_peer_all l resps (resp_chain_to _ _ _ _ _ _ Ch)) in Hx0.
+  set (L0 := L <| r_msgs := [] |>) in *.
+  assert (HC0 : LCore L0) by (destruct HC; constructor; cbn; auto).
+  rewrite steps_app in Hx0. inv_bind Hx0. rename x into La1.
+  rewrite steps_app in Hx0. inv_bind Hx0. rename x into Lb1.
+  match goal with Hs : steps L0 pre = Ok La1 |- _ => rename Hs into Hpre_run end.
+  match goal with Hs : steps La1 resps = Ok Lb1 |- _ => rename Hs into Hmid_run end.
+  destruct (leader_steps_others pre a L0 pr La1 Hpre HC0 Hg HP Hpre_run) as (pra & SA).
+  pose proof SA as (A1 & (newa & A2 & A2f) & A3 & A4 & A5).
+  pose proof (lfr_LCore _ _ _ _ _ A1 HC0) as HCa.
+  destruct (leader_steps LL T l f lo HLL Hlo HloT HT Hlf rwl l0 Hl0 Habs0 resps a a1 Ch Ha1 La1 pra Lb1
+              HCa A3 A4 Hmid_run)
+    as (prb & newb & S1 & S2 & S3 & S4 & S5 & S6 & S7 & S8 & S9 & S10).
+  pose proof (lfr_LCore _ _ _ _ _ S1 HCa) as HCb.
+  destruct (leader_steps_others post a1 Lb1 prb L1 Hpost HCb S4 S5 Hx0) as (pr1 & SB).
+  pose proof SB as (B1 & (newc & B2 & B2f) & B3 & B4 & B5).
+  pose proof (lfr_LCore _ _ _ _ _ B1 HCb) as HC1.
+  destruct (pkey_inv _ _ A5) as (KA1 & KA2 & KA3). destruct (pkey_inv _ _ B5) as (KB1 & KB2 & KB3).
+  assert (Hmsgs : r_msgs L1 = newa ++ newb ++ newc).
+  { rewrite B2, S2, A2. change (r_msgs L0) with (@nil msg). cbn [app]. rewrite <- app_assoc. reflexivity. }
+  assert (Hsound : Forall (fun x => m_to x = f -> snd_app x) (newa ++ newb ++ newc)).
+  { apply Forall_app. split; [exact A2f|]. apply Forall_app. split; [exact S3|exact B2f]. }
+  assert (Hlf1 : lfr L0 L1) by (eapply lfr_trans; [exact A1|eapply lfr_trans; [exact S1|exact B1]]).
+  destruct (lfr_fields _ _ Hlf1) as [Ht1 He1].
+  change (r_heartbeat_timeout L0) with (r_heartbeat_timeout L) in Ht1.
+  change (r_heartbeat_elapsed L0) with (r_heartbeat_elapsed L) in He1.
+  destruct (leader_tick LL T l f lo Hlo HT Hlf l0 a1 L1 pr1 L2 hrl HC1 B3 B4 Hx1)
+    as (HC2 & Hg2 & Ht2 & hbs & M2 & Hhbs & Hfire & Hquiet).
+  rewrite Hmsgs in M2. rewrite Ht1, HH in Ht2, Hfire, Hquiet. rewrite He1 in Hfire, Hquiet.
+  (* measure facts from pr to pr1 *)
+  assert (Hmu_a : mu pra = mu pr) by (apply mu_key; exact A5).
+  assert (Hmu_b : mu pr1 = mu prb) by (apply mu_key; exact B5).
+  (* the follower's tick *)
+  set (F1c := F1 <| r_msgs := [] |>) in *.
+  assert (HF1c : FInv a1 F1c) by (destruct HF1; constructor; cbn; auto).
+  assert (Hwait : r_promotable F1c = false \/
+                  r_election_elapsed F1c + 1 < r_randomized_election_timeout F1c).
+  { change (r_promotable F1c) with (r_promotable F1).
+    change (r_election_elapsed F1c) with (r_election_elapsed F1).
+    change (r_randomized_election_timeout F1c) with (r_randomized_election_timeout F1).
+    rewrite Fp, Fra. destruct Htm as [Htm|[Htm1 Htm2]]; [left; exact Htm|right].
+    destruct Q as [|q0 qt] eqn:EQ.
+    - rewrite (Eq1 eq_refl). specialize (Htm2 eq_refl). lia.
+    - rewrite E1 by discriminate. lia. }
+  destruct (follower_tick LL T f lo rw a1 F1c F2 hrf HF1c Hwait Hx2) as [EF2 HF2].
+  exists a1, pr1. split; [exact La|]. split.
+  { constructor.
+    - exact HC2.
+    - exists pr1. auto.
+    - exact HF2.
+    - rewrite EF2. reflexivity.
+    - rewrite M2. apply Forall_to_peer. apply Forall_app. split.
+      + eapply Forall_impl; [|exact Hsound]. intros x Hx' Hto. left. apply Hx'. exact Hto.
+      + eapply Forall_impl; [|exact Hhbs]. intros x Hx' Hto. right. apply Hx'. exact Hto.
+    - exact Ht2.
+    - rewrite EF2. cbn [r_promotable r_randomized_election_timeout r_election_elapsed].
+      change (r_promotable (F1c <| r_election_elapsed := r_election_elapsed F1c + 1 |>))
+        with (r_promotable F1).
+      change (r_randomized_election_timeout (F1c <| r_election_elapsed := r_election_elapsed F1c + 1 |>))
+        with (r_randomized_election_timeout F1).
+      change (r_election_elapsed (F1c <| r_election_elapsed := r_election_elapsed F1c + 1 |>))
+        with (r_election_elapsed F1 + 1).
+      rewrite Fp, Fra. destruct Htm as [Htm|[Htm1 Htm2]]; [left; exact Htm|right].
+      split; [exact Htm1|]. intros Hempty.
+      assert (Hnf : r_heartbeat_elapsed L + 1 < Hb).
+      { destruct (N.lt_ge_cases (r_heartbeat_elapsed L + 1) Hb) as [Hlt|Hge]; [exact Hlt|].
+        destruct (Hfire Hge) as (_ & x & Ix & Tx & _). exfalso.
+        assert (Hin : In x (to_peer f (r_msgs L2))).
+        { apply In_to_peer; [rewrite M2; apply in_or_app; right; exact Ix|exact Tx]. }
+        rewrite Hempty in Hin. destruct Hin. }
+      destruct (Hquiet Hnf) as [Eh2 _]. rewrite Eh2.
+      destruct Q as [|q0 qt] eqn:EQ.
+      + rewrite (Eq1 eq_refl). specialize (Htm2 eq_refl). lia.
+      + rewrite E1 by discriminate. lia. }
+  split; [exact Hg2|]. split; [lia|].
+  split.
+  { destruct S7 as [S7|S7]; [left; lia|]. right. congruence. }
+  split.
+  { (* an obligation in the queue is discharged *)
+    intros (x & Ix & (Sx & O1 & O2 & O3)).
+    destruct (An x Ix Sx) as (rep & Irep & (Rty & [(Rrj & Ridx)|(Rrj & Ridx)])).
+    - specialize (S8 rep Irep Rty Rrj).
+      apply (mu_lt_matched LL T l f lo Hlo HT Hlf a1); [exact B4|exact Ha1|].
+      destruct Ridx as [Ridx|Ridx]; [|lia].
+      destruct O2 as [O2|O2]; [lia|].
+      destruct (m_entries x); [congruence|]. cbn [length] in Ridx. lia.
+    - rewrite Hmu_b, <- Hmu_a. apply (S9 rep Irep Rty Rrj).
+      destruct (pi_state _ _ _ _ A4) as [Es|Es]; [right|left; exact Es].
+      rewrite Ridx. rewrite (KA3 Es). apply O3. congruence. }
+  split.
+  { (* a heartbeat in the queue creates an obligation *)
+    intros (x & Ix & Tx) Hlt. destruct (Hbr x Ix Tx) as (rep & Irep & Rty).
+    destruct (S10 (ex_intro _ rep (conj Irep Rty)) ltac:(lia)) as [Hd|(y & Iy & Oy)]; [left; lia|].
+    right. exists y. split.
+    - apply In_to_peer; [rewrite M2; apply in_or_app; left; apply in_or_app; right;
+                         apply in_or_app; left; exact Iy|].
+      destruct Oy as ((_ & _ & _ & Hto & _) & _). exact Hto.
+    - eapply obl_key; [symmetry; exact B5|exact Oy]. }
+  split.
+  { intros Hge. destruct (Hfire Hge) as (_ & x & Ix & Tx & Ty). exists x. split; [|exact Ty].
+    apply In_to_peer; [rewrite M2; apply in_or_app; right; exact Ix|exact Tx]. }
+  intros Hlt. apply (Hquiet Hlt).
+Qed.
+
 End View.
